@@ -455,6 +455,9 @@ func RunEnumeration(c *Check, o Opts, e Enumeration, deadline time.Time) *Merged
 	if hang <= 0 {
 		hang = hangSeconds
 	}
+	if o.Tier != "thorough" && hang > 900 {
+		hang = 900 // no single quick case takes this long; a worker that is stuck is reported after 15 minutes, not hours
+	}
 	n := e.N()
 	m.CasesTotal = n
 	bs := c.BlockSize
